@@ -207,7 +207,7 @@ mod v_neighbor_cache {
         assert!(c.storage.get(&ip).unwrap().expires_at == nb.expires_at, "prop:c16_lookup_is_pure");
         kani::cover!(m_has_key(&m, &ip), "refreshed an existing neighbor");
         kani::cover!(m.n == 3 && !m_has_key(&m, &ip), "filled into a full cache");
-        kani::cover!(a == Answer::RateLimited, "expired and rate limited");
+        kani::cover!(a == Answer::NotFound && later.total_micros() == first_dead.total_micros() + 1 && m.n == 3, "probe one microsecond after expiry, full cache");
     }
 
     // ------------------------------------------------------------------ eviction: the oldest expiry, never another
@@ -234,8 +234,9 @@ mod v_neighbor_cache {
         }
         // exactly one goes: two different old entries are never both gone
         let j = any_lt(3);
-        if j != i && e.valid && m.e[j].valid && e.ip != ip && m.e[j].ip != ip {
-            assert!(slot_kept(&c, &e) || slot_kept(&c, &m.e[j]), "prop:c16_eviction_removes_exactly_one_entry");
+        let f = m.e[j]; // (copied out: references into a symbolically indexed array element confuse CBMC's memcmp model)
+        if j != i && e.valid && f.valid && e.ip != ip && f.ip != ip {
+            assert!(slot_kept(&c, &e) || slot_kept(&c, &f), "prop:c16_eviction_removes_exactly_one_entry");
         }
         assert!(c.storage.len() == if known || m.n == 3 { m.n } else { m.n + 1 }, "prop:c16_fill_adds_at_most_one_entry");
         assert!(c.lookup(&ip, now) == Answer::Found(hw), "prop:c16_filled_entry_answers_with_filled_address");
@@ -262,8 +263,9 @@ mod v_neighbor_cache {
         m.silent = now + Duration::from_millis(1_000);
         // entries untouched, answers follow the new silent_until
         let i = any_lt(3);
-        if m.e[i].valid {
-            assert!(slot_kept(&c, &m.e[i]), "prop:c16_limit_rate_keeps_entries");
+        let e = m.e[i]; // copied out, see nc_evicts_oldest
+        if e.valid {
+            assert!(slot_kept(&c, &e), "prop:c16_limit_rate_keeps_entries");
         }
         assert!(c.storage.len() == m.n, "prop:c16_limit_rate_keeps_entries");
         let p = any_ip();
